@@ -286,7 +286,10 @@ let run_one (type f) (f : f fld) (op : string) (g : string list list) : string =
             | _ -> diff "profile-dependent" "one result"))
   | _ -> "UNKNOWN-OP"
 
-(* ------------------------------------------------------------------ clean_divide (base field only) *)
+(* ------------------------------------------------------------------ clean_divide (base field only)
+   The model (`pdiv_clean_divide` = the current tree) is run with the production cutoff (what the harness runs), with
+   and without debug assertions, and with the cfg(test) cutoff 0, where every non-zero divisor takes the NTT arm; all of
+   them must give the long-division quotient of the spec. *)
 let run_clean_divide (g : string list list) : string =
   let f = bf in
   let grp i = List.nth g i in
@@ -295,8 +298,9 @@ let run_clean_divide (g : string list list) : string =
   let cutoff = cLEAN_DIVIDE_CUTOFF_THRESHOLD_PROD in
   let ntt_arm = ZZ.geq (poly_degree bfe_ops rd) cutoff in
   let m = pdiv_clean_divide cutoff false ra rd in
-  (* debug assertions only matter in the long-division arm *)
-  let m' = if ntt_arm then m else pdiv_clean_divide cutoff true ra rd in
+  (* debug assertions only matter where long division runs: below the cutoff, or in the fallback of the NTT arm *)
+  let fallback () = (match pdiv_vanishes_on_coset ra rd with Some true -> true | _ -> false) in
+  let m' = if ntt_arm && not (fallback ()) then m else pdiv_clean_divide cutoff true ra rd in
   if Array.length d = 0 then (if m = None && m' = None then "PANIC" else diff (show_opt_sp f m) "PANIC")
   else begin
     let (q, rm) = sp_divmod 1 a d in
@@ -304,40 +308,13 @@ let run_clean_divide (g : string list list) : string =
       (* unclean division: outside the property (the result is profile dependent: debug_assert) *)
       "UNCLEAN release=" ^ show_opt_sp f m ^ " checked=" ^ show_opt_sp f m'
     else begin
-      let vanishes () = match pdiv_vanishes_on_coset ra rd with Some true -> true | _ -> false in
-      (* Polynomial::zero() (no stored coefficient) divided by a divisor with constant term zero *)
-      let empty_dividend_root0 = ra = [] && (match rd with c0 :: _ -> ZZ.equal (bfe_value c0) ZZ.zero | [] -> false) in
-      let why () = if empty_dividend_root0 then " why=empty-dividend-divisor-root0"
-                   else if vanishes () then " why=divisor-vanishes-on-coset" else "" in
       let agrees x = (match x with Some l -> sp_eq (model_sp f l) q | None -> false) in
-      (* the repaired code (`_v1`, /verif/fixes/C09-clean-divide-root-on-coset.patch) under both cutoffs *)
-      let v1_bad () =
-        let v1 = pdiv_clean_divide_v1 cutoff false ra rd in
-        if not (agrees v1) then Some ("v1:" ^ show_opt_sp f v1)
-        else if ntt_arm then None
-        else begin
-          let t1 = pdiv_clean_divide_v1 cLEAN_DIVIDE_CUTOFF_THRESHOLD_TEST false ra rd in
-          if agrees t1 then None else Some ("cutoff0-v1:" ^ show_opt_sp f t1)
-        end in
-      if not (agrees m) then begin
-        let tag = why () in
-        (* the repair must remove the coset class (it does not address the empty-dividend class) *)
-        match (if tag = " why=divisor-vanishes-on-coset" then v1_bad () else None) with
-        | Some b -> diff b (show_sp q)
-        | None -> diff (show_opt_sp f m) (show_sp q) ^ tag
-      end
-      else if not (agrees m') then diff ("checked:" ^ show_opt_sp f m') (show_sp q) ^ why ()
+      if not (agrees m) then diff (show_opt_sp f m) (show_sp q)
+      else if not (agrees m') then diff ("checked:" ^ show_opt_sp f m') (show_sp q)
       else if ntt_arm then show_sp q
       else begin
-        (* the cfg(test) value of the cutoff (0): every non-zero divisor takes the NTT arm.  A disagreement with the
-           spec is expected exactly for the two known defect classes of the NTT arm (which occur at any degree there);
-           the zero-free NTT path of `_v1` is exercised here as well *)
         let t = pdiv_clean_divide cLEAN_DIVIDE_CUTOFF_THRESHOLD_TEST false ra rd in
-        let known = empty_dividend_root0 || vanishes () in
-        if not (agrees t) && not known then diff ("cutoff0:" ^ show_opt_sp f t) (show_sp q)
-        else match (if empty_dividend_root0 then None else v1_bad ()) with
-             | Some b -> diff b (show_sp q)
-             | None -> show_sp q
+        if not (agrees t) then diff ("cutoff0:" ^ show_opt_sp f t) (show_sp q) else show_sp q
       end
     end
   end
